@@ -202,7 +202,8 @@ pub fn run(rep: &mut Report, thorough: bool) {
             let bits = rng.below(128) as u32;
             let knobs = OptKnobs::from_bits(bits, &mut rng);
             let o1 = scen::random_opts(&mut rng, &sc, &knobs);
-            let shape = if h == 4 && exec_file.is_some() { 7 } else if late_mapped { h % 6 } else if h == 2 { 6 } else { h % 6 }; // 6: configured application memory becomes readable only after the first (failing) requests; 5: every request is preceded by a failed one; 0: same options; 1: blamed thread changes; 2: principal address unset later; 3: crash context removed later; 4: target swapped
+            // h = 0..5: the six basic shapes; 6: crash ip in a truncated file; 7: late application memory
+            let shape = if h % 8 == 6 && exec_file.is_some() { 7 } else if h % 8 == 7 && !late_mapped { 6 } else { h % 8 % 6 }; // 6: configured application memory becomes readable only after the first (failing) requests; 5: every request is preceded by a failed one; 0: same options; 1: blamed thread changes; 2: principal address unset later; 3: crash context removed later; 4: target swapped
             let mut o1 = o1;
             if shape == 6 {
                 o1.app_memory.push((late.0 + 8 * rng.below(64), 1 + rng.below(4096)));
